@@ -24,6 +24,15 @@ Definition init_judge (pc : pcase) (impl : pout) : bool :=
             Bool.eqb mi (mir (o_orient o)) && (w =? fst (lsize o)) && (h =? snd (lsize o)) && negb sl && bb
         | None => negb (supported (m_prog m) k)
         end in
+      if 0 <=? pc_init_fail pc then
+        (* a fault was injected at the k-th fallible call of init: either it hit (error returned, nothing issued
+           afterwards) or init has fewer calls than that (and must then be judged as usual) *)
+        match r with
+        | RErr (EInitInterface _) | RErr EInitResetPin => Z.of_nat (List.length (filter fallible ev)) =? pc_init_fail pc + 1
+        | _ => (Z.of_nat (List.length (filter fallible ev)) <=? pc_init_fail pc) &&
+               init_impl_ok m k o (pc_rst pc) r ev reported
+        end
+      else
       init_impl_ok m k o (pc_rst pc) r ev reported && (negb (baseline_says m k) || res_beq r ROk)
   end.
 
